@@ -681,6 +681,102 @@ func RegistryStorm(p *sut.Proc, pairs, rounds int) (created int, findings []*che
 	return
 }
 
+// JoinLeaveRaceStorm: free-running races between a join by id and the
+// departure of the session's last member (released together, with a random
+// skew of up to 300 us either way). The oracle is G1's: a join answered with
+// success leaves the joiner in a live session that a probe finds under the
+// same id and uuid, listing the joiner; a refused join leaves nothing behind.
+func JoinLeaveRaceStorm(p *sut.Proc, pairs, rounds int, seed int64) (races, accepted int, findings []*check.Finding, inconclusive []string) {
+	var mu sync.Mutex
+	var wg sync.WaitGroup
+	ms, err := p.Metrics()
+	if err != nil {
+		return 0, 0, nil, []string{err.Error()}
+	}
+	base := ms["session_count"]
+	for i := 0; i < pairs; i++ {
+		wg.Add(1)
+		go func(i int) {
+			defer wg.Done()
+			defer func() {
+				if x := recover(); x != nil {
+					mu.Lock()
+					inconclusive = append(inconclusive, fmt.Sprint("join-leave race storm: ", x))
+					mu.Unlock()
+				}
+			}()
+			h := uint64(seed)*0x9E3779B97F4A7C15 + uint64(i)*0xBF58476D1CE4E5B9
+			for k := 0; k < rounds; k++ {
+				h = h*6364136223846793005 + 1442695040888963407
+				skew := time.Duration(int64(h>>33)%600-300) * time.Microsecond
+				a := scen.MustDial(p, "")
+				b := scen.MustDial(p, "")
+				jr, _, err := a.Join("")
+				must(err)
+				if jr == nil {
+					panic("creation refused")
+				}
+				_, err = b.Barrier()
+				must(err)
+				id := b.NextReqID()
+				var inner sync.WaitGroup
+				inner.Add(2)
+				go func() {
+					defer inner.Done()
+					if skew > 0 {
+						time.Sleep(skew)
+					}
+					a.Close()
+				}()
+				go func() {
+					defer inner.Done()
+					if skew < 0 {
+						time.Sleep(-skew)
+					}
+					b.Send(&hagallpb.ParticipantJoinRequest{Type: d.TJoinReq, Timestamp: d.NewTag(), RequestId: id, SessionId: jr.SessionId})
+				}()
+				inner.Wait()
+				if ok, _ := scen.Departed(p, a, 8*time.Second); !ok {
+					panic("the last member's handler never returned")
+				}
+				win, err := b.Barrier()
+				must(err)
+				var got *hagallpb.ParticipantJoinResponse
+				for _, e := range win {
+					if m, ok := e.M.(*hagallpb.ParticipantJoinResponse); ok && m.RequestId == id {
+						got = m
+					}
+				}
+				mu.Lock()
+				races++
+				mu.Unlock()
+				if got != nil {
+					snap, err := scen.Probe(p, got.SessionId, "")
+					must(err)
+					mu.Lock()
+					accepted++
+					switch {
+					case !snap.Found:
+						findings = append(findings, f([]string{"C07"}, "join/orphaned", "join-by-id x last departure (free-running)",
+							"a join by id racing the departure of the last member was answered with success (session %s uuid %s participant %d) but a probe joining by that id gets error %d: the session was unregistered under the joiner", got.SessionId, got.SessionUuid, got.ParticipantId, snap.Code))
+					case snap.Join.SessionUuid != got.SessionUuid:
+						findings = append(findings, f([]string{"C07", "C10"}, "join/orphaned", "join-by-id x last departure (free-running)",
+							"a join by id racing the departure of the last member was answered with success for session %s uuid %s, but that id now names uuid %s", got.SessionId, got.SessionUuid, snap.Join.SessionUuid))
+					}
+					mu.Unlock()
+				}
+				b.Close()
+				scen.Departed(p, b, 8*time.Second)
+			}
+		}(i)
+	}
+	wg.Wait()
+	if len(findings) == 0 {
+		findings = append(findings, registryQuiescent(p, base, 0, "join-by-id x last departure (free-running)")...)
+	}
+	return
+}
+
 // G13: the frame worker and a departing member deadlock on the member's full
 // request queue. X has a pose update pending and starts leaving (session
 // switch); its main loop is held at the entry of leaveSession (standing for a
